@@ -87,6 +87,7 @@ func c01(r *core.Run) {
 	r.Rule("H1", "restart safety (start/stop/start histories): Shutdown declares the service stopped only after a synchronous, unconditional WaitGroup.Wait for all workers, and serve re-creates the group registry before any worker of the new run starts - so a callback of the previous run cannot overlap one of the next", 2)
 	r.Rule("F1", "funnel: every callback-kind dynamic call (handlers, With*/query callbacks, queue elements) is reachable only through the closure handed to enqueue / the drain loop; documented exceptions are named", 6)
 	r.Rule("F3", "group value: the routed Match.Group is toString(the matched node's group template, name tokens re-sliced at the match record's mount index), and the record's node, mount index and params are written together at each accept site (the obligations of C06.R4): a stale or early-written mount index evaluates ${tags} on the wrong tokens, so resources meant to share a worker group get different ids and run concurrently", 6)
+	r.Rule("F4", "group template evaluation (the group-tag obligations of C06.R2): in the function that turns a group template into the worker id the index of a ${tag} part is used for nothing but indexing the mount-rebased tokens - never compared with a constant or used in arithmetic; whether a part is a tag is decided by its string (index 0 is a valid tag position), so a test on the index would give a handler whose tag sits on the first token the empty group, i.e. no serialisation at all", 1)
 	r.Rule("F2", "group argument: at every call site of enqueue the group id is the routed Match.Group (resource name when no match), a Resource's Group(), or WithGroup's own parameter; resource.group is only written from Match.Group and Match.Group only from the registered group's toString", 8)
 
 	a, e := queueEngine(r, "L1")
@@ -99,12 +100,7 @@ func c01(r *core.Run) {
 
 	// ---- L1 ----------------------------------------------------------------
 	guarded := func(f core.Field) bool { return f == a.RWork || f == a.WorkQueue || f == a.WQueue }
-	var firstGo ssa.Instruction
-	for _, c := range core.Calls(a.Serve) {
-		if core.IsGo(c) && firstGo == nil {
-			firstGo = c
-		}
-	}
+	firstGo := firstWorkerStart(p, a)
 	for _, ac := range core.FieldAccesses(root, guarded) {
 		fn := core.FuncName(ac.Fn)
 		construct := ac.Kind + "(" + ac.F.String() + ")"
@@ -149,6 +145,7 @@ func c01(r *core.Run) {
 	// ---- F3 (shared with C06.R4) --------------------------------------------
 	if ro := resolveMuxRolesFor(r, "F3"); ro != nil {
 		c06MatchAssembly(r, "F3", root, ro)
+		c06Units(r, "F4", root, ro, true)
 	}
 	c01GroupArg(r, a, root)
 }
@@ -1259,12 +1256,7 @@ func c01Restart(r *core.Run, rule string, a *svcAnchors, root []*ssa.Function) {
 	}
 	r.Check(wait != nil && storeStopped != nil && core.Dominates(wait, storeStopped), rule, core.FuncName(shutdown), "stopped-only-after-all-workers-exited", posOf(p, storeStopped),
 		"Store(stopped) is dominated by a plain WaitGroup.Wait on the worker group", "the service can be declared stopped (and served again) while a worker of this run is still inside a callback: after the restart the same group can run on two workers at once")
-	var firstGo ssa.Instruction
-	for _, c := range core.Calls(a.Serve) {
-		if core.IsGo(c) && firstGo == nil {
-			firstGo = c
-		}
-	}
+	firstGo := firstWorkerStart(p, a)
 	fresh := false
 	for _, ac := range core.FieldAccesses([]*ssa.Function{a.Serve}, func(f core.Field) bool { return f == a.RWork }) {
 		if ac.Kind == "store" && firstGo != nil && core.Dominates(ac.Instr, firstGo) {
